@@ -127,7 +127,55 @@ fn exec_orient(case: &Value) -> Value {
     e
 }
 
+/// 3x3 matrices (affine maps of the plane) with small integer entries: images of a point and - for the
+/// matrices without translation - of a vector, and both compositions with a second matrix.
+fn exec_m3(case: &Value) -> Value {
+    use re::math::mat::Mat3x3;
+    use re::math::point::pt2;
+    use re::math::vec::vec2;
+    type M3 = Mat3x3<RealToReal<2>>;
+    let mut e = case.clone();
+    let mk = |v: &Value| -> M3 {
+        let g = |i: usize, j: usize| v[i][j].as_i64().unwrap() as f32;
+        Mat3x3::new([[g(0, 0), g(0, 1), g(0, 2)], [g(1, 0), g(1, 1), g(1, 2)], [0.0, 0.0, 1.0]])
+    };
+    let p = (case["p"][0].as_i64().unwrap() as f32, case["p"][1].as_i64().unwrap() as f32);
+    let r = guard(|| {
+        let (m, n) = (mk(&case["M"]), mk(&case["N"]));
+        let ap = m.apply_pt(&pt2(p.0, p.1));
+        let av = m.apply(&vec2(p.0, p.1));
+        let mn = m.compose(&n);
+        let nm = m.then(&n);
+        let rows = |x: &M3| -> Vec<Vec<i64>> { (0..3).map(|i| (0..3).map(|j| s(x.0[i][j])).collect()).collect() };
+        let q = mn.apply_pt(&pt2(p.0, p.1));
+        let mnp = [s(q.x()), s(q.y())];
+        json!({"ap": [s(ap.x()), s(ap.y())], "av": [s(av.x()), s(av.y())], "mn": rows(&mn), "nm": rows(&nm), "mnp": mnp})
+    });
+    let o = e.as_object_mut().unwrap();
+    match r {
+        Some(v) => {
+            for (k, x) in v.as_object().unwrap() {
+                o.insert(k.clone(), x.clone());
+            }
+            o.insert("panic".into(), json!(0));
+        }
+        None => {
+            for k in ["ap", "av", "mnp"] {
+                o.insert(k.into(), json!([0, 0]));
+            }
+            for k in ["mn", "nm"] {
+                o.insert(k.into(), json!([[0, 0, 0], [0, 0, 0], [0, 0, 0]]));
+            }
+            o.insert("panic".into(), json!(1));
+        }
+    }
+    e
+}
+
 pub fn exec(case: &Value) -> Value {
+    if case.get("op").and_then(|v| v.as_str()) == Some("m3") {
+        return exec_m3(case);
+    }
     if case.get("op").and_then(|v| v.as_str()) == Some("bigrot") {
         return exec_bigrot(case);
     }
@@ -226,6 +274,24 @@ pub fn gen(args: &Args, out: &mut dyn Write) {
         for axis in ["x", "y", "z"] {
             writeln!(out, "{}", json!({"k": format!("br{}-{}{}", args.seed, j, axis), "op": "bigrot", "axis": axis, "deg": rad, "rad": 1, "path": []})).unwrap();
         }
+    }
+    // 3x3: rotations by quarter turns and Pythagorean angles (times the hypotenuse), shears, scalings, with
+    // and without a translation
+    for i in 0..(if args.tier == "thorough" { 20_000 } else { 800 }) {
+        let mut m3 = |rng: &mut Rng| -> Vec<Vec<i64>> {
+            let lin: [[i64; 2]; 2] = match rng.below(6) {
+                0 => [[0, -1], [1, 0]],
+                1 => [[3, -4], [4, 3]],
+                2 => [[1, rng.range(-3, 3)], [0, 1]],
+                3 => [[rng.range(-3, 3), 0], [0, rng.range(1, 4)]],
+                4 => [[5, 12], [-12, 5]],
+                _ => [[rng.range(-4, 4), rng.range(-4, 4)], [rng.range(-4, 4), rng.range(-4, 4)]],
+            };
+            let t = if rng.chance(1, 3) { [0, 0] } else { [rng.range(-5, 5), rng.range(-5, 5)] };
+            vec![vec![lin[0][0], lin[0][1], t[0]], vec![lin[1][0], lin[1][1], t[1]]]
+        };
+        let (m, n) = (m3(&mut rng), m3(&mut rng));
+        writeln!(out, "{}", json!({"k": format!("t{}-{}", args.seed, i), "op": "m3", "M": m, "N": n, "p": [rng.range(-6, 6), rng.range(-6, 6)], "path": []})).unwrap();
     }
     // orient_y / orient_z: every direction of a small lattice as the axis, the reference direction anywhere
     // but along it (also within a fraction of a degree of it), both at scales from 2^-9 to 2^9
